@@ -210,3 +210,15 @@ Theorem C16_acceptor_complete_bounded :
   forallb (fun r => N.leb 5000 (fst r)) complete_bounded = true.
 Proof. exact acceptor_complete_bounded. Qed.
 Print Assumptions C16_acceptor_complete_bounded.
+
+(* The raw log (one entry per boundary event, tagged with the goroutine that emitted it, interleaved with
+   the other observations) is cut into locked sections by corr/C16_Corr.v [group] before it is given to the
+   acceptor.  The cut only regroups: the observations keep their order, and for every goroutine (and for
+   the caller of rc.Close()) the events of its sections, concatenated, are exactly its events in the raw
+   log, in order.  (Whether the cut is where the mutex discipline puts it is then decided by the acceptor:
+   a section no action of the LTS emits is rejected, soundly.) *)
+Theorem C16_group_only_regroups : forall l, plain (log_obs l) ->
+  filter (fun o => negb (is_sec o)) (group l) = log_obs l /\
+  forall w, flat_map (sec_evs w) (group l) = actor_events w l.
+Proof. exact group_preserves. Qed.
+Print Assumptions C16_group_only_regroups.
